@@ -302,6 +302,8 @@ def fault_specs(tier, modes=MODES):
                 add('%s: 2 calls (<=2 files each) + close; %s' % (mname, sched), cont, chunk, [call(1, 2), call(1, 2)], 30, fault=fn)
                 add('%s: 3 calls (<=2 files, then 1 file each) + close; %s' % (mname, sched), cont, chunk, [call(1, 2), call(1, 1), call(1, 1)], 60, fault=fn, budget_s=2400)
                 if not cont: add('%s: 2 blocks then 1 block + close; %s' % (mname, sched), cont, chunk, [call(2, 2), call(1, 2)], 60, fault=fn)
+            # inductive step: the fault strikes during call number k (or the close) of a history of any length: 2 calls + close from ANY Inv_W state
+            add('%s: any Inv_W state, 2 calls (<=2 files, then 1 file) + close; %s' % (mname, sched), cont, chunk, [call(1, 2), call(1, 1)], 12, fault=fn, pre='open')
     return S
 
 
